@@ -73,12 +73,12 @@ theorem err_preserved_orderBy_keys (S : Sem χ ρ ν ε κ α) (Q : Quirks) (hq 
 
 /-- Project / Unwind (operators that never say `done`): if the `d ≥ 1` items handed out are all
     `Ok`, nothing was pending and no pulled row parked a failure, WHEREVER the stream ends -/
-theorem park_reported_stream {σ : Type} (t : Trans σ ε ρ) (hnd : ∀ st, t.done st = false)
+theorem park_reported_stream {σ : Type} (t : Trans σ ε ρ) (hf : ErrFwd t) (hnd : ∀ st, t.done st = false)
     (parks : σ → Except ε ρ → Option ε) (fp : σ → Option ε) (s : PlanOps.Stream ε ρ) (st : σ)
     (pend : Option ε) (d : Nat) (hd : d ≠ 0)
     (h : allOk (((parkT t parks fp false).run (st, pend) s).take d) = true) :
     pend = none ∧ parkEvents t parks fp st s d = [] :=
-  park_ok_of_never_done t hnd parks fp s st pend d hd h
+  park_ok_of_never_done t hf hnd parks fp s st pend d hd h
 
 /-- OrderBy / Aggregate (failures are parked by the work done once the input is exhausted) -/
 theorem park_reported_block {σ : Type} (t : Trans σ ε ρ) (fp : σ → Option ε) (s : PlanOps.Stream ε ρ)
